@@ -13,6 +13,8 @@ string is fed to an SGR terminal emulator (models/sgr.py) that starts in the def
            {1, True, 1.0, 200, 200.0, (5,0,0), (5.0,0,0), 'RED', 0, False, 0.0} x fg/bg role x ColorFmt/ColorBytes,
            each sequence from a pristine (re-executed) ak.color module; the last construction must be judged and
            rendered exactly as when it is the only one (bool values are executed but not judged)
+  make   : CHText.make(list) over every list of <= 3 chunks with texts from {"", "x"} and 3 formats (plain,
+           RED+bold, 46/235+underline): empty chunks in every position, SGR emulator oracle
   grow   : every ordered pair of representative formats: a text is rendered, extended in place six times
            (`+=` merging into the last chunk / starting a new chunk / plain / a text) and rendered after
            every extension (each observation twice)
@@ -55,7 +57,9 @@ REQUIRED_FEATURES = ["spec:name", "spec:int", "spec:rgb", "spec:gray", "spec:inv
                      "multi-chunk", "strip-compared", "colon-form-emitted", "invalid-rejected",
                      "render-extend-in-place-render", "sequence", "sequence:hash-equal-lookalike-same-role",
                      "sequence:invalid-after-equal-valid", "sequence:valid-after-equal-bool",
-                     "bytes-applied:no_color", "spec:float-component-tuple"]
+                     "bytes-applied:no_color", "spec:float-component-tuple", "CHText.make",
+                     "CHText.make:leading-empty-chunk-then-other-colour",
+                     "CHText.make:inner-or-trailing-empty-chunk"]
 
 EFFECTS = sgr.EFFECTS
 TEXTS = ("", "x", "a b")
@@ -490,6 +494,50 @@ def check_multi(case, acc):
     return None
 
 
+# ---------------------------------------------------------------------------------------------- CHText.make
+MAKE_FORMATS = [(None, None, ()), ("RED", None, ("bold",)), (46, 235, ("underline",))]
+MAKE_TEXTS = ("", "x")
+
+
+def check_make(case, acc):
+    """CHText.make(list of chunks) -- the constructor the package's printable objects use -- with empty-text
+    chunks in every position: every visible character carries exactly its own chunk's attributes, the terminal
+    is in the default state after every chunk (an empty chunk neither donates nor swallows colour)."""
+    chunks, want = [], []
+    for fi, txt in case["chunks"]:
+        c, b, effs = MAKE_FORMATS[fi]
+        chunks.append(impl.ColorFmt(c, bg_color=b, **{e: True for e in effs})(txt))
+        st = (sgr.expected_index(c), sgr.expected_index(b), frozenset(effs))
+        want += [(ch, st) for ch in txt]
+    acc.trans(3)
+    t = impl.CHText.make(list(chunks))
+    s = str(t)
+    cells, final, problems = sgr.run(s)
+    show = lambda cs: [(c, st[0], st[1], sorted(st[2])) for c, st in cs]    # noqa
+    if problems:
+        return ("make:malformed-sequence", "str(CHText.make(chunks)) is not well-formed", [s, problems[0]], "well-formed")
+    if cells != want:
+        return ("make:wrong-attributes", "a character of CHText.make(chunks) is shown with other attributes than "
+                "its own chunk's (an empty chunk donated or swallowed colour)", [s, show(cells)], show(want))
+    if final != sgr.DEFAULT:
+        return ("make:state-not-reset", "terminal not in default state after the text", s, "default")
+    for ch in t.chunks:
+        cs, fin, pr = sgr.run(str(ch))
+        if pr or fin != sgr.DEFAULT:
+            return ("make:chunk-not-self-contained", "a chunk does not return to the default state", str(ch), "default")
+    plain = "".join(c for c, _ in want)
+    stripped = impl.CHText.strip_colors(s)
+    if sgr.ESC in stripped and t.plain_text() == plain:                 # the stripper, not the text, is at fault
+        return (f"strip-misses-sequence:{_leftover_form(stripped)}", "strip_colors(str(text)) != text.plain_text()",
+                stripped, plain)
+    if t.plain_text() != plain or len(t) != len(plain) or stripped != plain:
+        return ("make:text-differs", "plain_text()/len()/strip_colors of CHText.make(chunks)",
+                [t.plain_text(), len(t), impl.CHText.strip_colors(s)], plain)
+    if sgr.visible(format(t, "_^7")) != format(plain, "_^7"):
+        return ("make:format-differs", "format(CHText.make(chunks))", format(t, "_^7"), format(plain, "_^7"))
+    return None
+
+
 # ---------------------------------------------------------------------------------------------- grow in place
 def check_grow(case, acc):
     """A text is rendered, extended in place (`+=`: same colour as its last chunk -> merged, other colour ->
@@ -717,6 +765,20 @@ def run_shard(shard, tier, seed, acc):
                 if trip == (1, 2, 4):
                     acc.sample(case)
                 _report(acc, v, case)
+        items = [(fi, txt) for fi in range(len(MAKE_FORMATS)) for txt in MAKE_TEXTS]
+        for k in (1, 2, 3):
+            for combo in itertools.product(items, repeat=k):
+                case = {"kind": "make", "chunks": [list(x) for x in combo]}
+                v = _guarded(check_make, case, acc, "make")
+                feats = ["CHText.make"]
+                if combo[0][1] == "" and k > 1 and combo[1][0] != combo[0][0]:
+                    feats.append("CHText.make:leading-empty-chunk-then-other-colour")
+                if any(txt == "" for _, txt in combo[1:]):
+                    feats.append("CHText.make:inner-or-trailing-empty-chunk")
+                acc.case(nontrivial=k > 1, features=feats, outcome="make-ok" if v is None else v[0])
+                if combo == ((0, ""), (1, "x"), (2, "x")):
+                    acc.sample(case)
+                _report(acc, v, case)
         for pair in itertools.product(range(len(fm)), repeat=2):
             case = {"kind": "grow", "formats": [[enc(fm[i][0]), enc(fm[i][1]), list(fm[i][2])] for i in pair]}
             v = _guarded(check_grow, case, acc, "grow")
@@ -732,6 +794,8 @@ def replay(case, acc):
         _report(acc, _guarded(check_multi, case, acc, "multi"), case)
     elif case["kind"] == "grow":
         _report(acc, _guarded(check_grow, case, acc, "grow"), case)
+    elif case["kind"] == "make":
+        _report(acc, _guarded(check_make, case, acc, "make"), case)
     elif case["kind"] == "seq":
         try:
             _report(acc, check_sequence(case, acc)[0], case)
